@@ -30,7 +30,7 @@ RULE = ("2 of 3 runs: 1-12 ACN-Data documents (instants incl. DST transitions, s
         "period, #docs, capped?)")
 PROBES = ["acndata_path", "stochastic_path", "stay_crosses_dst", "max_len_capped", "force_feasible_capped", "fit_used",
           "fit_closed_form_branch", "fit_search_branch", "naive_start", "host_tz_non_utc", "fit_infeasible_inconclusive",
-          "departure_eq_arrival", "request_below_half_deliverable", "lenient_server_out_of_window_docs", "arrival_before_start", "integer_typed_sample_matrix"]
+          "departure_eq_arrival", "request_below_half_deliverable", "lenient_server_out_of_window_docs", "arrival_before_start", "integer_typed_sample_matrix", "earlier_call_with_other_battery_params"]
 FAULT_DIMENSION = "host time zone changes (S6); server paging as in C20; lenient server returning documents outside the requested window"
 REAL_VS_STUB = ("real: acndata_events.get_evs/_convert_to_ev, DataClient, acndata.utils, StochasticEvents.generate_events/"
                 "_convert_ev_matrix, batt_cap_fn, EV, Battery, Linear2StageBattery; stub: requests -> fake server; "
@@ -110,6 +110,8 @@ def gen(rs, tier):
             back = r.randint(1, 3 * 86400)
             d["connectionTime"] = start - back
             d["disconnectTime"] = d["connectionTime"] + r.randint(60, 86400)
+    if r.random() < 0.3:
+        common["prelude_battery"] = r.choice(["fit", "l2_kwargs", "ideal_kwargs", "none"])
     common.update(path="acndata", docs=docs, pages=[r.choice([0, 1, 2, 5, 100]) for _ in range(r.choice([0, 1, 3]))],
                   start=start, end=start + 40 * 86400, start_zone=r.choice([None, None] + ZONES))
     return common
@@ -210,6 +212,19 @@ def check(sc):
                         z = zoneinfo.ZoneInfo(sc["start_zone"])
                         start = dt.datetime.fromtimestamp(sc["start"], tz=z)
                         end = dt.datetime.fromtimestamp(sc["end"], tz=z)
+                    if sc.get("prelude_battery"):
+                        # the library has already converted another batch, with other battery parameters: nothing may stick
+                        out.probe("earlier_call_with_other_battery_params")
+                        srv0 = FakeServer([serialise({"_id": "z0", "connectionTime": sc["start"] + 600, "disconnectTime": sc["start"] + 7200,
+                                                      "doneChargingTime": None, "kWhDelivered": 2.0, "sessionID": "z0", "spaceID": "Z",
+                                                      "timezone": "UTC", "note": ""})], [])
+                        dc_mod.requests = srv0
+                        try:
+                            acndata_events.get_evs("tok", "caltech", start, end, period, sc["voltage"], 32 * sc["voltage"] / 1000.0,
+                                                   battery_params=battery_params(dict(sc, battery=sc["prelude_battery"])), force_feasible=True)
+                        except ValueError:
+                            pass
+                        dc_mod.requests = server
                     try:
                         evs = acndata_events.get_evs("tok", "caltech", start, end, period, sc["voltage"], sc["max_power"],
                                                      max_len=sc["max_len"], battery_params=battery_params(sc),
